@@ -211,9 +211,9 @@ class QuotientFilter:
             int: The next hash stored in the quotient filter"""
         queue: List[int] = []
 
-        # find first empty location
+        # find first empty location; a completely full filter has none, any cluster start works as well
         start = 0
-        while not self._is_empty_element(start):
+        while not (self._is_empty_element(start) or self._is_cluster_start(start)):
             start += 1
 
         cur_quot = 0
